@@ -161,6 +161,7 @@ class BinaryNode(NodeProtocol):
     def pc_after(self, current_pc: Address) -> Address:
         retval = current_pc + len(self.binary_content)
         self.resolver.current_scope.add_label(self.symbol_base, current_pc)
+        self.resolver.current_scope.pending.discard(self.symbol_base + "__size")
         self.resolver.current_scope.add_symbol(self.symbol_base + "__size", len(self.binary_content))
         return retval
 
